@@ -14,13 +14,17 @@ use serde_json::json;
 pub const FINDING_PROJECT: &str = "C23-project-panic";
 
 fn check(p: &Program, modes: &[Mode], family: &'static str, ctx: &Ctx) -> CaseInfo {
+    check_with(p, modes, family, ctx, Limits { max_answers: 200, budget: 200_000 })
+}
+
+fn check_with(p: &Program, modes: &[Mode], family: &'static str, ctx: &Ctx, lim: Limits) -> CaseInfo {
     let mut info = CaseInfo::default();
     let desc = p.show();
     info.key = hash_str(&desc);
     info.class(family);
     let mut steps = 0;
     for m in modes {
-        let out = run::run(p, *m, Limits { max_answers: 200, budget: 200_000 });
+        let out = run::run(p, *m, lim);
         steps = steps.max(out.steps);
         if ctx.want_sample && info.sample.is_none() {
             info.sample = Some(json!({ "program": desc, "family": family, "answers": out.answers.len(), "end": format!("{:?}", out.end), "steps": out.steps }));
@@ -76,6 +80,18 @@ fn fam_fd(bytes: &[u8], ctx: &Ctx) -> CaseInfo {
     check(&c.program(), &[Mode::Bfs, Mode::Dfs], "fd", ctx)
 }
 
+/// One large dimension: long / deep terms and long chains of bindings (C01's scale cases as
+/// queries), hundreds of stored disequalities (C02's), wide disjunctions / long chains of choice
+/// points / deep recursion (C05's), wide finite domains (C16's).
+fn fam_scale(bytes: &[u8], ctx: &Ctx) -> CaseInfo {
+    let mut s = Source::new(bytes);
+    let thorough = ctx.tier == Tier::Thorough;
+    let (p, kind) = crate::props::scale_mix::any_program(&mut s, thorough);
+    let mut info = check_with(&p, &[Mode::Bfs, Mode::Dfs], kind.label(), ctx, Limits { max_answers: 3000, budget: 3_000_000 });
+    truncate_sample(&mut info, 400);
+    info
+}
+
 macro_rules! reuse {
     ($name:ident, $path:path, $label:expr) => {
         fn $name(bytes: &[u8], ctx: &Ctx) -> CaseInfo {
@@ -114,7 +130,7 @@ fn witness_project() -> Option<String> {
 pub fn def() -> PropertyDef {
     PropertyDef {
         id: "C23",
-        rule: "every generator of the framework: tree programs (14 atoms, 4 fresh variables, depth 3, all compound kinds), search programs (16 goals, depth 4) and FD programs (5 variables, 8 constraints, domains -6..=9) at enlarged bounds, each built and run both as interleaving search and wrapped in dfs{}; plus the CLP(Z), project, for, committed-choice, matcha/matchu, compound, infinite-prefix and prefix/branches generators through their own evaluations. Oracle: no panic other than the step-budget payload (overflow checks and debug assertions are on). Non-trivial = >=3 goals and >=50 engine steps (own families) or the source property's rule (reused families); distinct = hash of the printed program. Panics raised by a second state reaching `project` are the listed finding C23-project-panic",
+        rule: "every generator of the framework: tree programs (14 atoms, 4 fresh variables, depth 3, all compound kinds), search programs (16 goals, depth 4) and FD programs (5 variables, 8 constraints, domains -6..=9) at enlarged bounds, each built and run both as interleaving search and wrapped in dfs{}; plus the CLP(Z), project, for, committed-choice, matcha/matchu, compound, infinite-prefix and prefix/branches generators through their own evaluations. Oracle: no panic other than the step-budget payload (overflow checks and debug assertions are on). Non-trivial = >=3 goals and >=50 engine steps (own families) or the source property's rule (reused families); distinct = hash of the printed program. Family `scale`: programs with one large dimension (terms of up to 400/2000 levels and chains of var-var bindings, hundreds of stored disequalities, disjunctions of hundreds of clauses, chains of choice points, recursion hundreds of levels deep, finite domains of hundreds of values). Panics raised by a second state reaching `project` are the listed finding C23-project-panic",
         assumptions: vec!["well-formed = operands of the kinds the relations document, every FD operand given a domain before labeling, small integers (no isize overflow)", "compiled surface programs (pattern matching through the macros) are run by the C13-C15 pipeline, which reports panics itself"],
         families: vec![
             Family { name: "tree-large", max_len: 300, quick: 60_000, thorough: 1_500_000, run: fam_tree },
@@ -128,6 +144,7 @@ pub fn def() -> PropertyDef {
             Family { name: "compound", max_len: 200, quick: 30_000, thorough: 500_000, run: fam_compound },
             Family { name: "infinite-prefix", max_len: 160, quick: 4_000, thorough: 60_000, run: fam_infinite },
             Family { name: "prefix-branches", max_len: 120, quick: 30_000, thorough: 500_000, run: fam_branches },
+            Family { name: "scale", max_len: 96, quick: 12_000, thorough: 200_000, run: fam_scale },
         ],
         fixed: vec![],
         witnesses: vec![Witness { finding: FINDING_PROJECT, run: witness_project }],
